@@ -85,6 +85,62 @@ def check_a(ck, repo):
                 okm = okd and oks and not aug
                 why = f"the mask {r.id} is defined as {ds}" + ("" if oks and not aug else " and rows are removed from / combined into it")
             ck.verdict(okm, "C08.a", fi, f"mask {rows}", "the mask is the task's own bucket mask, or a copy of it to which borrowed rows are added", f"{why}: the model of bucket {p_i} is trained on other rows than its bucket's")
+            if okm and isinstance(r, ast.Name):
+                _check_borrowing(ck, repo, fi, r.id, p_y)
+
+
+def _check_borrowing(ck, repo, fi: FunctionInfo, mask: str, p_y: str):
+    """the classifier borrows ONE example for each class missing from the bucket:
+    every index added to the mask copy is collected together with marking its
+    class as found, where its class was not found yet"""
+    # where the rows added to the mask come from
+    adders = []
+    for x in own_nodes(fi.node):
+        if isinstance(x, ast.Assign) and isinstance(x.targets[0], ast.Subscript) and src_of(x.targets[0].value) == mask and src_of(x.value) == "True":
+            adders.append(x)
+    for a in adders:
+        idx = a.targets[0].slice
+        src = None
+        if isinstance(idx, ast.Name):
+            loop = next((p_ for p_ in _parents_of(a) if isinstance(p_, ast.For) and isinstance(p_.target, ast.Name) and p_.target.id == idx.id), None)
+            src = loop.iter if loop is not None else idx
+        if not isinstance(src, ast.Name):
+            ck.violated("C08.a", fi, a, "rows are added to the bucket mask from something else than the list of borrowed examples")
+            continue
+        L = src.id
+        built = [x for x in own_nodes(fi.node) if isinstance(x, ast.Assign) and any(isinstance(t, ast.Name) and t.id == L for t in x.targets)]
+        apps = [c for c in own_nodes_incl_lambda(fi.node) if isinstance(c, ast.Call) and isinstance(c.func, ast.Attribute) and c.func.attr == "append" and src_of(c.func.value) == L]
+        ok = bool(apps) and all(isinstance(b.value, ast.List) and not b.value.elts for b in built)
+        for c in apps:
+            if not ok:
+                break
+            k = src_of(c.args[0]) if c.args else None
+            blk = _block_of_stmt(stmt_of(c))
+            marks = [x for x in blk if isinstance(x, ast.Expr) and isinstance(x.value, ast.Call) and isinstance(x.value.func, ast.Attribute) and x.value.func.attr == "add" and [src_of(z) for z in x.value.args] == [f"{p_y}[{k}]"]]
+            if len(marks) != 1:
+                ok = False
+                break
+            F = src_of(marks[0].value.func.value)
+            ok = cond_want(repo, f"{p_y}[{k}] not in {F}", fi, c) in conds_at(repo, fi, c)
+            fdefs = [t for _, t in defs_texts(repo, fi, F)]
+            ok = ok and bool(fdefs) and all(t.startswith("set(") for t in fdefs)
+        ck.verdict(ok, "C08.a", fi, a, "one example is borrowed for each class missing from the bucket (the class is marked as found with it)", "the rows added to the bucket are not collected one per missing class (each borrowed index must be taken where its class is not found yet and mark it found): the local model is trained on more than its bucket's rows plus one example per missing class")
+
+
+def _parents_of(n):
+    p = getattr(n, "_parent", None)
+    while p is not None:
+        yield p
+        p = getattr(p, "_parent", None)
+
+
+def _block_of_stmt(stmt):
+    p = getattr(stmt, "_parent", None)
+    for f in ("body", "orelse", "finalbody"):
+        b = getattr(p, f, None)
+        if isinstance(b, list) and any(x is stmt for x in b):
+            return b
+    return [stmt]
 
 
 def _parallel_sites(fi: FunctionInfo):
@@ -529,6 +585,7 @@ def run(ck):
 
 _F = "mlinsights/mlmodel/piecewise_estimator.py"
 WITNESSES = [
+    {"name": "borrow-all-rows-of-missing-classes", "file": _F, "rule": "C08.a", "old": "                if y[ki] not in found:\n                    res.append(ki)\n                    found.add(y[ki])\n", "new": "                if y[ki] not in found:\n                    res.append(ki)\n"},
     {"name": "weights-not-reselected", "file": _F, "rule": "C08.a", "old": "        Xi = X[ind, :]\n        yi = y[ind]\n        sw = sample_weight[ind] if sample_weight is not None else None\n\n    return", "new": "        Xi = X[ind, :]\n        yi = y[ind]\n\n    return"},
     {"name": "targets-before-borrowing", "file": _F, "rule": "C08.a", "old": "        Xi = X[ind, :]\n        yi = y[ind]\n        sw = sample_weight[ind] if sample_weight is not None else None\n\n    return", "new": "        Xi = X[ind, :]\n        sw = sample_weight[ind] if sample_weight is not None else None\n\n    return"},
     {"name": "mask-ge", "file": _F, "rule": "C08.a", "old": "    sample_weight, association, nb_classes, random_state\n):\n    ind = association == i\n", "new": "    sample_weight, association, nb_classes, random_state\n):\n    ind = association >= i\n"},
